@@ -275,7 +275,7 @@ func VH_C04_T1_two_writers() {
 			bdone <- struct{}{}
 		}()
 		vrt.Drain() // engine: B runs until it blocks on the bucket lock
-		sleepMs(30) // native: give B time to reach the lock
+		sleepMs(150) // native: give B time to reach the lock
 	}
 	aBody := vrt.Bytes("v.a", 1)
 	s.setRaw("ka", aBody, 0) // writer A (acknowledged first)
